@@ -132,7 +132,7 @@ def run(ctx):
             res = _collect(ctx, r["n"], [r["seed"]], "r", ctx.replay)
             if rp.get("sig"): res.oracle_failures = [f for f in res.oracle_failures if f["sig"] == rp["sig"]]
             return res
-    return _collect(ctx, 400 if ctx.quick() else 3000, _seeds(ctx))
+    return _collect(ctx, 400 if ctx.quick() else 5000, _seeds(ctx))
 
 
 def search(ctx, res):
